@@ -1,6 +1,9 @@
 """Ghost client code: compositions of the real functions, verified against their contracts only
 (modular: the callees' bodies are not visible here)."""
+import io
+
 from sigpyproc.io.bits import pack, unpack
+from sigpyproc.io.sigproc import _read_string, encode_key
 
 
 def roundtrip_bytes(b, nbits, bitorder):
@@ -83,3 +86,24 @@ def folded_mixed_history(cube, a, p, b):
     cube._get_pdelays(p)
     d2 = cube._get_dmdelays(b)
     return d1 + d2
+
+
+# ---- C16: the mask built by Filterbank.clean_rfi (same call order), against the RFIMask contracts only
+def rfimask_union(mask, freq_mask, method, custom_funcn):
+    mask.apply_mask(freq_mask)
+    mask.apply_method(method)
+    mask.apply_funcn(custom_funcn)
+
+
+# ---- C05: reading back what encode_key wrote (against the contracts of encode_key / _read_string only)
+def header_key_roundtrip(key, tail):
+    fp = io.BytesIO(encode_key(key) + tail)
+    k = _read_string(fp)
+    return k, fp.tell()
+
+
+def header_strvalue_roundtrip(key, value, tail):
+    fp = io.BytesIO(encode_key(key, value=value, value_type="str") + tail)
+    k = _read_string(fp)
+    v = _read_string(fp)
+    return k, v, fp.tell()
